@@ -426,9 +426,14 @@ JoinerOpts == [joiner |-> "eager", lazy |-> "default", transpose |-> "default", 
 FamC18(dummy) ==
   \* thread-spawning macros: free-running behind gates; async macros with two branches: the first callback's future of every
   \* branch is gated and the readiness orders are enumerated, so a panic is raised while a sibling is still pending
-  UNION {{Run(P, pl, IF (P.kind.spawn /\ ~P.kind.async) \/ (P.kind.async /\ NB(P) = 2) THEN {IdOf(b, 0, 1) : b \in BrSet(P)} ELSE {}) : pl \in PanicPlans(P)} :
+  UNION {{Run(P, pl, IF (P.kind.spawn /\ ~P.kind.async) \/ (P.kind.async /\ NB(P) = 2)
+                     THEN {IdOf(b, 0, 1) : b \in BrSet(P)} \cup {P.branches[b + 1].iid + 9 : b \in {c \in BrSet(P) : P.branches[c + 1].init = "await"}}
+                     ELSE {}) : pl \in PanicPlans(P)} :
          P \in {[Build(kd, "res", pr, StepC18, NoName, ExprInit, IF kd.try THEN "and_then" ELSE "then") EXCEPT !.hform = "call"] :
                   kd \in Kinds8, pr \in IF Tier = "quick" THEN {<<2>>, <<1, 2>>, <<2, 1, 2>>} ELSE Profiles(3, 2) \cup {<<3, 1, 2>>}}
+               \* a task panics while the construction of the step is suspended by the second branch's awaiting initial expression
+               \cup {LET In(b) == IF b = 1 THEN "await" ELSE "expr" IN Build(Kind(TRUE, t, TRUE), "res", pr, StepC18, NoName, In, "none") :
+                        t \in BOOLEAN, pr \in {<<1, 1>>, <<2, 1>>}}
                \* the same with a custom joiner between the branches and the macro
                \cup {[Build(kd, "res", pr, StepC18, NoName, ExprInit, "none") EXCEPT !.opts = JoinerOpts] :
                         kd \in Kinds8, pr \in IF Tier = "quick" THEN {<<1, 2>>, <<2, 2>>} ELSE {<<1, 2>>, <<2, 2>>, <<2, 1, 2>>}}}
